@@ -425,6 +425,7 @@ def run_to_completion(state: State, external_event: Union[dict, Event]) -> State
                         heads_matching.append(head)
                     else:
                         flow_state = get_flow_state_from_head(state, head)
+                        _no_restart_if_not_started(flow_state)
                         _abort_flow(state, flow_state, [])
                     if head.uid in match_error_events:
                         # The error is processed before the failed flow is restarted
@@ -1060,9 +1061,25 @@ def _try_get_event_from_head(state: State, head: FlowHead) -> Optional[Event]:
         return None
 
 
+def _no_restart_if_not_started(flow_state: FlowState) -> None:
+    """An activated flow that fails before it has reached its first waiting statement
+    must not be restarted, the new instance would fail the same way (infinite loop)."""
+    if (
+        flow_state.status in (FlowStatus.WAITING, FlowStatus.STARTING)
+        and flow_state.activated > 0
+        and not flow_state.new_instance_started
+    ):
+        log.warning(
+            "Activated flow '%s' failed before it was started, it is not restarted",
+            flow_state.flow_id,
+        )
+        flow_state.new_instance_started = True
+
+
 def _fail_flow_of_head(state: State, head: FlowHead, e: Exception) -> None:
     flow_state = get_flow_state_from_head(state, head)
     log.warning("Flow '%s' failed to send an event: %s", flow_state.flow_id, e)
+    _no_restart_if_not_started(flow_state)
     _abort_flow(state, flow_state, head.matching_scores)
     _push_left_internal_event(
         state,
@@ -1090,6 +1107,7 @@ def _fail_event_source_flow(state: State, event: Event, e: Exception) -> None:
         else None
     )
     if source_flow_state is not None and is_active_flow(source_flow_state):
+        _no_restart_if_not_started(source_flow_state)
         _abort_flow(state, source_flow_state, event.matching_scores)
     _push_left_internal_event(
         state,
